@@ -53,17 +53,25 @@ impl Property for C18 {
     }
 
     fn generate(&self, rng: &mut Rng, thorough: bool) -> J {
-        let kind = *rng.pick(&["star", "star_join", "group", "group", "distinct_real", "distinct_real", "join_real", "join_int", "error_row"]);
-        let zero_heavy = kind == "distinct_real" || kind == "join_real" || rng.chance(1, 4);
+        let kind = *rng.pick(&["star", "star_join", "group", "group", "distinct_real", "distinct_real", "join_real", "join_int", "error_row", "group_special_real", "group_special_real", "name_lookup", "many_groups"]);
+        let zero_heavy = kind == "distinct_real" || kind == "join_real" || kind == "group_special_real" || rng.chance(1, 4);
+        // REAL values that are not ordinary numbers: NaN, infinities (legal literals for a REAL column)
+        let special = kind == "group_special_real";
         let keys_txt = ["a", "b", "c"];
-        let n_lines = rng.range(2, 9) as usize;
+        let n_lines = if kind == "many_groups" { rng.range(20, 60) as usize } else if special { rng.range(4, 26) as usize } else { rng.range(2, 9) as usize };
         let mut lines: Vec<String> = Vec::new();
-        for _ in 0..n_lines {
+        for li in 0..n_lines {
             let txt = |rng: &mut Rng| rng.pick(&keys_txt).to_string();
             let int = |rng: &mut Rng| if rng.chance(1, 8) { "-".to_owned() } else { format!("{}", rng.range(-3, 3)) };
-            let c0 = txt(rng);
-            let c1 = int(rng);
-            let c2 = if rng.chance(1, 10) { "-".to_owned() } else { gen_real(rng, zero_heavy) };
+            let c0 = if kind == "many_groups" { crate::sqlgen::key_name(li % 47) } else { txt(rng) };
+            let c1 = if kind == "many_groups" { format!("{}", li as i64 * 7 % 53) } else { int(rng) };
+            let c2 = if special && rng.chance(1, 2) {
+                rng.pick(&["NaN", "nan", "inf", "-inf", "NaN", "1e308", "-0.0"]).to_string()
+            } else if rng.chance(1, 10) {
+                "-".to_owned()
+            } else {
+                gen_real(rng, zero_heavy)
+            };
             let c3 = txt(rng);
             let c4 = int(rng);
             let c5 = gen_real(rng, zero_heavy);
@@ -93,7 +101,29 @@ impl Property for C18 {
             "distinct_real" => format!("SELECT COUNT(DISTINCT c2) AS d2, COUNT(DISTINCT c5) AS d5{} FROM w{}", if rng.chance(1, 2) { ", c0" } else { "" }, ""),
             "join_real" => format!("SELECT w.c1, v.x, v.y FROM w {} JOIN v::'{}' ON w.c2 = v.c2", rng.pick(&["INNER", "OUTER"]), JOINED_PATH),
             "join_int" => format!("SELECT w.c0, v.c0, v.y FROM w INNER JOIN v::'{}' ON w.c1 = v.x", JOINED_PATH),
+            "group_special_real" => format!(
+                "SELECT c2, COUNT(*) AS a0, SUM(c1) AS a1{} FROM w GROUP BY c2{}",
+                if rng.chance(1, 2) { ", MAX(c2) AS a2, MIN(c2) AS a3" } else { "" },
+                if rng.chance(1, 3) { " HAVING COUNT(*) >= 1" } else { "" }
+            ),
+            "name_lookup" => {
+                // the query names a table by a spelling that is not defined exactly; several look-alikes are
+                format!("SELECT * FROM {}", rng.pick(&["W", "wide", "Wide", "v2", "w "]).trim())
+            }
+            "many_groups" => format!(
+                "SELECT {} COUNT(*) AS a0, SUM(c4) AS a1, COUNT(DISTINCT c3) AS a2 FROM w GROUP BY {}{}",
+                rng.pick(&["c0,", "c1,", "c0, c1,"]),
+                "",
+                ""
+            ),
             _ => "SELECT c1 + 1 AS p, c0 + 1 AS q FROM w".to_owned(),
+        };
+        // many_groups: GROUP BY list must match the keys in the select list
+        let stmt = if kind == "many_groups" {
+            let keys = stmt.trim_start_matches("SELECT ").split(" COUNT(*)").next().unwrap_or("").trim().trim_end_matches(',').to_owned();
+            format!("{}{}", stmt, keys)
+        } else {
+            stmt
         };
         // distinct_real with the group key in the select list needs GROUP BY
         let stmt = if kind == "distinct_real" && stmt.contains(", c0") { format!("{} GROUP BY c0", stmt) } else { stmt };
@@ -111,6 +141,15 @@ impl Property for C18 {
             defs.push(' ');
             defs.push_str(&decoy(4 + i));
         }
+        if kind == "name_lookup" {
+            // tables whose names differ from the queried spelling only by case / a suffix
+            for (ti, name) in ["WIDE", "wIDE", "widE", "V2", "vv"].iter().enumerate() {
+                if rng.chance(2, 3) {
+                    // every look-alike extracts other groups under other column names
+                    defs.push_str(&format!(" CREATE TABLE {}(line = '^W (\\\\S+) (\\\\S+) (\\\\S+)', line[{}] => x{} TEXT, line[{}] => y{} TEXT);", name, 1 + ti % 3, ti, 1 + (ti + 1) % 3, ti));
+                }
+            }
+        }
         let k = if thorough { 64 } else { 8 };
         let keys: Vec<[u8; 16]> = (0..k).map(|_| rng.key16()).collect();
         json!({
@@ -122,7 +161,7 @@ impl Property for C18 {
             "joined": joined,
             "keys": keys_to_json(&keys),
             "repeat": rng.range(1, 3),
-            "format": rng.pick(&["text", "json", "csv"]),
+            "format": if special { *rng.pick(&["text", "csv"]) } else { *rng.pick(&["text", "json", "csv"]) },
             "os_entropy": rng.chance(1, 16),
         })
     }
